@@ -295,12 +295,20 @@ class SortImpl(object):
         kw = {}
         if not (implicit and not rev):
             kw["reverse"] = bool(rev)
+        import zlib
+        form = zlib.crc32(" ".join(map(str, c)).encode()) % 6      # how the same arguments are spelled
         if not (implicit and lim == "none"):
             kw["limit"] = None if lim == "none" else lim
+            if isinstance(lim, int) and lim >= 1:
+                # sort() accepts anything int() accepts: '3', 3.0 and 3.7 all mean limit 3
+                kw["limit"] = {0: str(lim), 1: float(lim), 2: lim + 0.7}.get(form, lim)
         if not (implicit and st == "none"):
             kw["sort_type"] = {"none": None, "stable": interfaces.STABLE, "optimal": interfaces.OPTIMAL,
                                "fwscan": interfaces.FWSCAN, "nbest": interfaces.NBEST,
                                "timsort": interfaces.TIMSORT}.get(st, st)
+            if isinstance(kw["sort_type"], str) and form % 2 == 1:
+                # an equal but not identical string (as it comes out of json / a request)
+                kw["sort_type"] = "".join(list(kw["sort_type"]))
         if not (implicit and raise_u):
             kw["raise_unsortable"] = bool(raise_u)
         try:
